@@ -38,6 +38,15 @@ def obligations(tier, H):
             for exc in EXCS + ("TypeError",):
                 for msg in (0, 1, 3):
                     add(dict(cfg, request=("const", None), parse="raises", exc=exc, msg=msg, instance=inst), [])
+    # ---- bodies that only a lenient pre-processing of the text would make acceptable ----
+    for cfg in configs:
+        for inst in (None, "plain"):
+            for form in forms:
+                for pad in range(len(H.PADS)):
+                    spec, leaves = D.entry(dict(form, method="m:echo", params="args1"))
+                    add(dict(cfg, request=spec, parse="padded", pad=pad, instance=inst), leaves)
+            for pad in range(len(H.BLANKS)):
+                add(dict(cfg, request=("const", None), parse="blank", pad=pad, instance=inst), [])
     # ---- structurally invalid objects (all skeletons that are invalid) ---------------
     skels = D.skeletons_full() if thorough else D.skeletons_pairwise()
     extra_pairs = [(k, inst) for k in D.skeletons_pairwise() for inst in ("plain", "dispatching")] if thorough else []
